@@ -55,3 +55,5 @@ SPEC = dict(
                  "read keys, QR literals and the three behaviour flags; txt_table_ok / qr_table_ok are re-evaluated on every build",
                  "device categories are below 2^32 (known finding otherwise)"],
 )
+
+SPEC["manifest"]["text"] += ' The report receiver keeps its own copy of what it is handed and then overwrites the entries it got (as the hub rewrites address lists in place): nothing of that may reach what the manager knows.'
